@@ -61,12 +61,12 @@ def build():
     if _bd is None:
         lock = os.path.join(vp.HARNESS, "Cargo.lock")
         if not os.path.exists(lock):
-            shutil.copy("/repo/Cargo.lock", lock)
+            shutil.copy(vp.REPO + "/Cargo.lock", lock)
         cmd = ["cargo", "build", "--offline", "--bin", "kv_replay", "--features", "backends"]
         t0 = time.time()
         p = vp.run(cmd, cwd=vp.HARNESS, timeout=3600, check=False)
         if p.returncode != 0 and "yanked" in (p.stdout or ""):
-            shutil.copy("/repo/Cargo.lock", lock)
+            shutil.copy(vp.REPO + "/Cargo.lock", lock)
             p = vp.run(cmd, cwd=vp.HARNESS, timeout=3600, check=False)
         if p.returncode != 0:
             raise vp.ToolError("harness build failed:\n" + (p.stdout or "")[-6000:])
